@@ -332,9 +332,13 @@ def _generic_builder(ck, fn: ast.FunctionDef) -> None:
         return
     pre = [('stmt', st) for st in fn.body[: fn.body.index(loop)] if isinstance(st, (ast.Assign, ast.AnnAssign))]
     env = path_env(Path(pre))
-    flat = ('call', ('attr', ('attr', ('var', 'jax'), 'tree'), 'flatten'), (('call', ('var', 'zeros_like'), (('IN', S),), ()),), ())
-    leaves_name = next((k for k, v in env.items() if v == ('item', flat, 0)), None)
-    treedef_name = next((k for k, v in env.items() if v == ('item', flat, 1)), None)
+    zero_in = ('call', ('var', 'zeros_like'), (('IN', S),), ())
+    tree_ns = ('attr', ('var', 'jax'), 'tree')
+    # (leaves, treedef) = jax.tree.flatten(z) is canonically (jax.tree.leaves(z), jax.tree.structure(z))
+    leaves_t = ('call', ('attr', tree_ns, 'leaves'), (zero_in,), ())
+    treedef_t = ('call', ('attr', tree_ns, 'structure'), (zero_in,), ())
+    leaves_name = next((k for k, v in env.items() if v == leaves_t), None)
+    treedef_name = next((k for k, v in env.items() if v == treedef_t), None)
     ck.expect('L3', leaves_name is not None and treedef_name is not None, fn,
               'input leaves and treedef come from jax.tree.flatten(zeros_like(self.in_structure())): columns follow pytree leaf order',
               'the reference input is not the flattened zero pytree of in_structure()', instance='input leaves')
@@ -342,7 +346,6 @@ def _generic_builder(ck, fn: ast.FunctionDef) -> None:
     matrix_name = next((k for k, v in env.items() if isinstance(v, tuple) and v[0] == 'call' and v[2] and v[2][0] == shape_t), None)
     ck.expect('L3', matrix_name is not None, fn, 'matrix has shape (out_size, in_size)', 'no buffer of shape (out_size(), in_size()) is allocated', instance='matrix shape')
     it = term(loop.iter, env)
-    leaves_t = ('item', flat, 0)
     names = [n.id for n in loop.target.elts] if isinstance(loop.target, ast.Tuple) and all(isinstance(n, ast.Name) for n in loop.target.elts) else []
     ck.expect('L3', it == ('call', ('var', 'enumerate'), (leaves_t,), ()) and len(names) == 2, fn, 'one pass per input leaf, in order', f'the loop iterates {show(it)}', instance='leaf loop')
     body_fn = next((st for st in loop.body if isinstance(st, ast.FunctionDef)), None)
